@@ -104,6 +104,20 @@ CLAIMS = {
              'trees, closing segments through boxed concats, empty-source neutrality.',
         technique='forwarding check over resolved trait callees, argument provenance and result flow on MIR',
         design_ref='§5 C13'),
+    'C19': dict(
+        category='other',
+        text='Static, per unsafe site (inventory taken from the compiler on every run: calls of unsafe fns, lifetime transmutes, raw '
+             'derefs, unsafe impls, unsafe blocks — 15 operations today): each operation is classified and its class obligation discharged '
+             'where it sits — from_utf8_unchecked only on encoder buffers whose every writer provably writes ASCII (ALPHABET); '
+             'lifetime-extending transmutes only of an entry of the write-once map cache (CACHE-BORROW + WRITEONCE) or of an element of the '
+             'Freeze replacement list reached through a &self accessor (FROZEN-BORROW + W-MUT); unchecked indexing of the piece vector '
+             'dominated by a non-empty check (NONEMPTY); unchecked str slicing only inside `unsafe fn`, whose only safe caller takes both '
+             'bounds from the char_indices table or the text length (UNCHECKED-CALLERS + witnesses that the trait is private and the '
+             'inherent method is `unsafe`); no hand-written unsafe impl; an unclassified unsafe operation is reported (fail-closed). '
+             'NOT decided (undischarged, stated in evidence): that binary-search results index the right piece, that table entries are ordered '
+             'char boundaries, schedules.',
+        technique='unsafe-operation inventory from MIR/HIR + per-class provenance / dominance / constant-byte-set rules + compile-fail witnesses',
+        design_ref='§5 C19'),
 }
 
 NOT_APPLICABLE = {
